@@ -10,7 +10,7 @@ from ..gen import random_plan, rand_fraction, enc_amount
 from ..models import si_table as SI
 from ..models.world import predefined_world, add_money
 from ..oracle import brief
-from ..ops import derived
+from ..ops import derived, computed
 
 RULE = ("every ordered pair of distinct predefined types (+ Money) x "
         "{+,-,<,<=,>,>=,==,!=}; every type x six kinds of plain number x "
@@ -187,7 +187,7 @@ def same_type_sub(chk, rng, w, wid, plan=None):
         kf = rng.choice([0.3, 0.1, 2.5, 7.25, 1e-3, 1 / 3, 123.456])
         k, ke = F(kf), ["fl", kf.hex()]
     kinds = ("D", "F", "int")
-    mk = lambda x, s_: derived(                             # noqa: E731
+    mk = lambda x, s_: computed(rng, w, x, s_) or derived(  # noqa: E731
         rng, Q(enc_amount(rng, x, kinds)[0], s_), s_)
     steps = [{"id": "a", "k": "a", "e": mk(xa, sa)},
              {"id": "b", "k": "b", "e": mk(xb, sb)},
